@@ -205,6 +205,51 @@ def check_history(case, refs):
     return None
 
 
+def check_failing_exports(kind):
+    """an export that fails INSIDE the conversion of a module (a parameter value with no package form) fails the same way
+    every time, for that module, for its parent and for any other parent of it - whatever was exported before"""
+    import hdl21 as h
+
+    def build():
+        E = h.ExternalModule(name="FxLeafExt", port_list=[h.Inout(name="a")], paramtype=dict, desc="", domain="fx")
+        bad = {"tuple": (1, 2), "set": {1}, "object": object()}[kind]
+        Leaf = h.Module(name="FxLeaf")
+        Leaf.p = h.Port()
+        Leaf.first = E(ok=1)(a=Leaf.p)
+        Leaf.second = E(bad=bad)(a=Leaf.p)
+        Leaf.third = E(ok=3)(a=Leaf.p)
+        tops = []
+        for k in (1, 2):
+            T = h.Module(name=f"FxTop{k}")
+            T.s = h.Signal()
+            T.pre = E(ok=k)(a=T.s)
+            T.leaf = Leaf(p=T.s)
+            T.post = E(ok=k + 10)(a=T.s)
+            tops.append(T)
+        return Leaf, tops
+
+    def outcome(m):
+        try:
+            pkg = h.to_proto(m)
+        except Exception as e:
+            return ("raised", type(e).__name__)
+        return ("package", [(pm.name, [i.name for i in pm.instances]) for pm in pkg.modules])
+    fresh = {}
+    for which in ("leaf", "top1", "top2"):
+        Leaf, tops = build()
+        fresh[which] = outcome({"leaf": Leaf, "top1": tops[0], "top2": tops[1]}[which])
+    import itertools as it
+    for order in it.permutations(("leaf", "top1", "top2", "top1", "leaf")):
+        Leaf, tops = build()
+        objs = {"leaf": Leaf, "top1": tops[0], "top2": tops[1]}
+        for step, which in enumerate(order):
+            got = outcome(objs[which])
+            if got != fresh[which]:
+                return ("failing-export.differs", f"{kind}: export of {which} after {order[:step]} gives {got}, without "
+                                                  f"history {fresh[which]}", {"design": "failing-export", "history": kind})
+    return None
+
+
 def check_misc(case, refs):
     try:
         return _check_misc(case, refs)
@@ -278,6 +323,27 @@ def _check_misc(case, refs):
             return ("freeze", f"{desc}: addition to an elaborated module accepted", {"design": desc, "history": "misc"})
         except RuntimeError:
             pass
+    # ... and so do its instances: no connection made, changed or removed - under a port name already connected or a new one
+    before = h.to_proto(top).SerializeToString(deterministic=True)
+    for m in (top, Mid):
+        for iname, inst in list(m.instances.items()):
+            some = next(iter(inst.conns), None)
+            sig = next(iter(m.signals.values()), None) or next(iter(m.ports.values()))
+            edits = [lambda: inst.connect("brand_new_port", sig), lambda: setattr(inst, "another_new_port", sig),
+                     lambda: inst(yet_another_port=sig)]
+            if some is not None:
+                edits += [lambda: inst.connect(some, sig), lambda: inst.replace(some, sig), lambda: inst.disconnect(some)]
+            for k, f in enumerate(edits):
+                try:
+                    f()
+                except RuntimeError:
+                    continue
+                except Exception as e:
+                    return ("freeze", f"{desc}: edit {k} of instance {iname} of an elaborated module raised {type(e).__name__}, "
+                                      f"not the refusal", {"design": desc, "history": "misc"})
+                return ("freeze", f"{desc}: edit {k} of instance {iname} of an elaborated module accepted", {"design": desc, "history": "misc"})
+    if h.to_proto(top).SerializeToString(deterministic=True) != before:
+        return ("freeze", f"{desc}: refused edits changed the export", {"design": desc, "history": "misc"})
     # address reuse: create, export and drop many designs with anonymous bundles, then export this one again
     for k in range(30):
         t3, _ = build()
@@ -335,6 +401,10 @@ def run(ctx):
                     rule="new parent over elaborated children == same parent over fresh children; additions refused; "
                          "30 create/export/delete cycles before a re-export (id-keyed caches)",
                     bound="4 designs", key_of=lambda c: c[0])
+    ctx.run_bounded("failing-exports", ["tuple", "set", "object"], check_failing_exports,
+                    rule="a module holding an instance whose parameter value has no package form, its two parents and itself "
+                         "exported in every order (with repeats): each export raises as it does without history",
+                    bound="3 kinds of value x 120 orders", key_of=repr)
     ctx.assumptions.append("id-keyed caches (flatten_bundles.THE_CACHE) are not under a proved contract: address reuse "
                            "is only exercised by the bounded create/delete cycles")
     return INFO
@@ -343,6 +413,10 @@ def run(ctx):
 def replay(payload):
     import hdl21 as h
     inp = payload.get("input") or {}
+    if inp.get("design") == "failing-export":
+        r = check_failing_exports(inp["history"])
+        print("replay:", r)
+        return 1 if r else 0
     if "design" in inp:
         for desc, b in dag_designs():
             if desc == inp["design"]:
